@@ -244,6 +244,10 @@ def earlier_simulation(channel):
             await (time + 1)
             for message in ('x', 'y', 'z'):
                 await channel.put(message)
+            # consumers that are forcefully closed while waiting when that simulation ends
+            scope.do(listener(5), volatile=True)
+            scope.do(single(), volatile=True)
+            await (time + 1)
     usim.run(main())
 
 
